@@ -699,7 +699,97 @@ func (s *aggSession) opResetAll(i int) {
 	}
 }
 
+// Pool member (cfg pool=1): records go through the process's own worker pool (Start, message
+// channel, two workers) instead of direct calls. Consecutive rec ops form a batch that is handed
+// to the workers back to back, so the workers ingest concurrently (under the controlled
+// scheduler, with preemptions); a batch holds at most one record per (key, node) stream because
+// the pool does not keep two records of one stream in order. The model ingests the batch once the
+// pool is idle again; its result does not depend on the order within such a batch.
+func (s *aggSession) flushBatch(batch []aggRec, where string) {
+	if len(batch) == 0 {
+		return
+	}
+	now := time.Now()
+	for _, r := range batch {
+		msg := s.buildMessage(r, s.keyV6[r.Key])
+		Block("feed", func() { s.msgCh <- msg })
+		s.env.Count("agg.records_through_pool", 1)
+	}
+	s.env.Sleep(time.Nanosecond) // the clock moves only when both workers are idle again
+	for _, r := range batch {
+		s.model.ingest(r, now)
+		s.env.Count("agg.records", 1)
+	}
+	// arrival instant is `now` for every record of the batch, but the Sleep moved the clock by 1 ns:
+	// deadlines are relative to `now`
+	s.checkAll(where)
+}
+
+func (s *aggSession) runPool(ops []plan.Op) {
+	started := make(chan struct{})
+	s.env.Go("pool", func() {
+		close(started)
+		s.ap.Start()
+	})
+	Block("pool-wait", func() { <-started })
+	s.env.Sleep(time.Nanosecond)
+	var batch []aggRec
+	inBatch := map[[2]int]bool{}
+	scratch := s.model.clone()
+	flush := func(i int) {
+		s.flushBatch(batch, fmt.Sprintf("after the batch before op %d", i))
+		batch = nil
+		inBatch = map[[2]int]bool{}
+		scratch = s.model.clone()
+	}
+	for i, op := range ops {
+		if op.K == "rec" {
+			r := s.recOf(op)
+			if r.Key < 0 || r.Key >= len(s.keyCat) {
+				continue
+			}
+			k := [2]int{r.Key, r.Node}
+			if inBatch[k] {
+				flush(i)
+			}
+			if !scratch.ingest(r, time.Now()) {
+				s.env.Count("agg.skipped_out_of_contract_record", 1)
+				continue
+			}
+			inBatch[k] = true
+			batch = append(batch, r)
+			continue
+		}
+		flush(i)
+		if len(s.env.Out.Violations) > 0 {
+			break
+		}
+		switch op.K {
+		case "adv":
+			s.env.Sleep(time.Duration(op.A))
+		case "scan":
+			s.opScan(i, op)
+			s.resyncFuzzy()
+		case "resetall":
+			s.opResetAll(i)
+		}
+		s.checkAll(fmt.Sprintf("after op %d (%s)", i, op.K))
+		if len(s.env.Out.Violations) > 0 {
+			break
+		}
+	}
+	if len(s.env.Out.Violations) == 0 {
+		flush(len(ops))
+	}
+	s.env.Sleep(time.Nanosecond)
+	Block("pool-stop", func() { s.ap.Stop() })
+}
+
 func (s *aggSession) run(ops []plan.Op) {
+	if cfgOr(s.env.Plan, "pool", 0) == 1 {
+		s.runPool(ops)
+		return
+	}
 	for i, op := range ops {
 		switch op.K {
 		case "rec":
